@@ -769,9 +769,11 @@ func (s *Server) cmdSearch(msg *Message) (res resp.Value, err error) {
 		if sw.output == outputCount && len(sw.wheres) == 0 &&
 			len(sw.whereins) == 0 && len(sw.whereevals) == 0 &&
 			sw.globEverything {
-			count := sw.col.StringCount() - int(sargs.cursor)
-			if count < 0 {
-				count = 0
+			// the cursor is unsigned: compare before converting, a value above
+			// the int range would turn negative and inflate the count
+			count := 0
+			if sargs.cursor < uint64(sw.col.StringCount()) {
+				count = sw.col.StringCount() - int(sargs.cursor)
 			}
 			sw.count = uint64(count)
 		} else {
